@@ -208,6 +208,9 @@ func genC08Str(t *rapid.T) c08Str {
 		c.Origin = "cashaddr-any-symbols"
 		prefix := genKnownPrefix(t)
 		n := rapid.IntRange(0, 120).Draw(t, "n")
+		if rapid.IntRange(0, 3).Draw(t, "tiny") == 0 { // empty / near-empty payload behind a valid checksum
+			n = rapid.IntRange(0, 3).Draw(t, "ntiny")
+		}
 		syms := make([]byte, n)
 		for i := range syms {
 			syms[i] = byte(rapid.IntRange(0, 31).Draw(t, "sym"))
@@ -389,6 +392,7 @@ type c08Filter struct {
 	Tweak     uint32   `json:"tweak"`
 	Flags     byte     `json:"flags"`
 	ViaWire   bool     `json:"via_wire"`
+	ReloadLen int      `json:"reload_len"`
 	Item      HexBytes `json:"item"`
 	Tx        c10Case  `json:"tx"`
 	// NewFilter arguments
@@ -452,7 +456,29 @@ func evalC08Filter(c c08Filter, o *Obs) error {
 			f.MsgFilterLoad()
 		})
 	}
-	if err := use("bloom.LoadFilter+ops", bloom.LoadFilter(msg)); err != nil {
+	lf := bloom.LoadFilter(msg)
+	if err := use("bloom.LoadFilter+ops", lf); err != nil {
+		return err
+	}
+	// reload the same Filter object with a message of another size (incl. empty), and load late
+	rl := c.ReloadLen
+	if rl < 0 || rl > wire.MaxFilterLoadFilterSize {
+		rl = 0
+	}
+	lf.Reload(wire.NewMsgFilterLoad(bytes.Repeat([]byte{c.Fill}, rl), c.HashFuncs, c.Tweak, wire.BloomUpdateType(c.Flags)))
+	if err := use("Filter.Reload(other size)+ops", lf); err != nil {
+		return err
+	}
+	late := bloom.LoadFilter(nil)
+	if err := use("LoadFilter(nil)+ops", late); err != nil {
+		return err
+	}
+	late.Reload(wire.NewMsgFilterLoad(bytes.Repeat([]byte{c.Fill}, c.FilterLen), c.HashFuncs, c.Tweak, wire.BloomUpdateType(c.Flags)))
+	if err := use("LoadFilter(nil).Reload+ops", late); err != nil {
+		return err
+	}
+	lf.Unload()
+	if err := use("Unload+ops", lf); err != nil {
 		return err
 	}
 	fp := math.Float64frombits(c.FPBits)
@@ -474,6 +500,7 @@ func genC08Filter(t *rapid.T) c08Filter {
 		c.FilterLen = rapid.IntRange(0, 64).Draw(t, "flen_s")
 	}
 	c.HashFuncs = uint32(rapid.SampledFrom([]int{0, 1, 3, 50}).Draw(t, "k"))
+	c.ReloadLen = rapid.SampledFrom([]int{0, 1, 2, 7, 64, 36000}).Draw(t, "rlen")
 	c.Elements = rapid.SampledFrom([]uint32{0, 1, 10, 1000, 1 << 31, 0xffffffff}).Draw(t, "elements")
 	c.FPBits = rapid.SampledFrom([]uint64{math.Float64bits(0.01), math.Float64bits(1), math.Float64bits(0), math.Float64bits(-1), 0x7ff8000000000001, 0x7ff0000000000000, math.Float64bits(1e-300)}).Draw(t, "fp")
 	c.Tx = genC10(t)
